@@ -18,7 +18,7 @@ PY = "/venv/bin/python"
 def match_known(fail, ent):
     oracles = ent["oracle"] if isinstance(ent["oracle"], list) else [ent["oracle"]]
     sites = ent["site"] if isinstance(ent["site"], list) else [ent["site"]]
-    if fail["oracle"] not in oracles or fail["site"] not in sites:
+    if fail["oracle"] not in oracles or (fail["site"] not in sites and "*" not in sites):
         return False
     fp = fail.get("preds") or {}
     for k, v in (ent.get("preds") or {}).items():
